@@ -14,38 +14,39 @@ Section Theorems.
   Variable sccs_of : list (modid * list modid) -> list (list modid).
   Variable reach : list (modid * list modid) -> modid -> modid -> bool.
   Variable sdo_of : list modid -> opts -> nat.
+  Variable thash : list (modid * list modid) -> modid -> nat.
   Variable ign_of : modid -> stamp -> opts -> bool.
   Variable blocker : modid -> content -> bool.
   Hypothesis AC : AnalysisContract imports probes check analyze.   (* contract, monitored not proved *)
-  Hypothesis GC : GraphContract sccs_of reach.                     (* contract, checked on every observed SCC list *)
+  Hypothesis GC : GraphContract analyze sccs_of reach thash.                   (* contract, checked on every observed SCC list *)
 
-  Notation CacheOK := (CacheOK content_of imports probes check blocker).
+  Notation CacheOK := (CacheOK content_of imports probes check reach thash blocker).
   Notation ProbeFresh := (ProbeFresh content_of probes ign_of).
-  Notation HistOK := (HistOK content_of imports probes analyze sccs_of reach sdo_of ign_of blocker).
+  Notation HistOK := (HistOK content_of imports probes analyze sccs_of reach sdo_of thash ign_of blocker).
   Notation Unique := (Unique content_of check ign_of).
-  Notation warm := (warm content_of imports probes analyze sccs_of reach sdo_of ign_of blocker).
-  Notation cold := (cold content_of imports probes analyze sccs_of reach sdo_of ign_of blocker).
-  Notation runs := (runs content_of imports probes analyze sccs_of reach sdo_of ign_of blocker).
+  Notation warm := (warm content_of imports probes analyze sccs_of reach sdo_of thash ign_of blocker).
+  Notation cold := (cold content_of imports probes analyze sccs_of reach sdo_of thash ign_of blocker).
+  Notation runs := (runs content_of imports probes analyze sccs_of reach sdo_of thash ign_of blocker).
 
   (* every run (also one aborted by a blocking error) from a cache satisfying the invariant leaves such a cache,
      provided the dependency lists it reuses are still right (ProbeFresh: no probed `from pkg import name` that was
      not a module has become one) *)
   Theorem run_preserves_CacheOK : forall c fs o now,
     CacheOK c -> ProbeFresh c o fs -> Proofs.FSOK fs -> CacheOK (snd (warm c fs o now)).
-  Proof. exact (p_run_preserves_CacheOK _ _ _ _ _ _ _ _ _ _ AC GC). Qed.
+  Proof. exact (p_run_preserves_CacheOK content_of imports probes check analyze sccs_of reach sdo_of thash ign_of blocker AC GC). Qed.
 
   (* a warm run from ANY cache satisfying the invariant reports what the cold run reports (both abort, or both
      report the same per-file diagnostics and status) *)
   Theorem warm_eq_cold : forall c fs o n n',
     CacheOK c -> ProbeFresh c o fs -> Proofs.FSOK fs -> Unique fs o ->
     output fs (warm c fs o n) = output fs (cold fs o n').
-  Proof. exact (p_warm_eq_cold _ _ _ _ _ _ _ _ _ _ AC GC). Qed.
+  Proof. exact (p_warm_eq_cold content_of imports probes check analyze sccs_of reach sdo_of thash ign_of blocker AC GC). Qed.
 
   (* all finite histories before the final state (cycles, aborted runs, option changes), side condition HistOK *)
   Theorem warm_eq_cold_all_histories_partial : forall (h : list (FS * opts)) (fs : FS) (o : opts) (n n' : nat),
     HistOK empty_store 0 h -> ProbeFresh (runs empty_store 0 h) o fs -> Proofs.FSOK fs -> Unique fs o ->
     output fs (warm (runs empty_store 0 h) fs o n) = output fs (cold fs o n').
-  Proof. exact (p_history_partial _ _ _ _ _ _ _ _ _ _ AC GC). Qed.
+  Proof. exact (p_history_partial content_of imports probes check analyze sccs_of reach sdo_of thash ign_of blocker AC GC). Qed.
 
   (* uniqueness is a THEOREM for programs whose imports and reported indirect dependencies are well-founded ... *)
   Theorem unique_for_acyclic_programs : forall fs o rank,
@@ -65,14 +66,14 @@ Section Theorems.
     output fs (warm (runs empty_store 0 h) fs o n) = output fs (cold fs o n').
   Proof.
     exact (fun h fs o rank n n' Hh HP Hfs Ha =>
-             p_history_partial _ _ _ _ _ _ _ _ _ _ AC GC h fs o n n' Hh HP Hfs (p_acyclic_unique content_of imports probes check analyze ign_of AC fs o rank Ha)).
+             p_history_partial content_of imports probes check analyze sccs_of reach sdo_of thash ign_of blocker AC GC h fs o n n' Hh HP Hfs (p_acyclic_unique content_of imports probes check analyze ign_of AC fs o rank Ha)).
   Qed.
 
   (* the full statement of Statement.v for programs that never probe (`from pkg import x` only for non-modules) *)
   Theorem warm_eq_cold_all_histories_noprobes : (forall m c o, probes m c o = []) ->
     (forall fs o, Proofs.FSOK fs -> Unique fs o) ->
-    warm_equals_cold_for_all_histories content_of imports probes analyze sccs_of reach sdo_of ign_of blocker.
-  Proof. exact (p_history_noprobes _ _ _ _ _ _ _ _ _ _ AC GC). Qed.
+    warm_equals_cold_for_all_histories content_of imports probes analyze sccs_of reach sdo_of thash ign_of blocker.
+  Proof. exact (p_history_noprobes content_of imports probes check analyze sccs_of reach sdo_of thash ign_of blocker AC GC). Qed.
 
   (* the same with the property's edits spelled out: any start, any list of Change/Add/Delete edits *)
   Theorem warm_eq_cold_all_edit_lists_noprobes : (forall m c o, probes m c o = []) ->
@@ -82,7 +83,7 @@ Section Theorems.
     let final := apply_edit (last visited fs0) e in
     Unique final o ->
     output final (warm (runs empty_store 0 (map (fun x => (x, o)) visited)) final o n) = output final (cold final o n').
-  Proof. exact (p_edits _ _ _ _ _ _ _ _ _ _ AC GC). Qed.
+  Proof. exact (p_edits content_of imports probes check analyze sccs_of reach sdo_of thash ign_of blocker AC GC). Qed.
 End Theorems.
 
 Print Assumptions run_preserves_CacheOK.
@@ -108,7 +109,8 @@ Definition ex_check (pr : modid -> content -> opts -> list modid)
 Definition ex_analyze pr (S0 : list modid) (src : modid -> content) (o : opts) (env : modid -> option ihash) (m : modid) :=
   ex_check pr m (src m) o (extend env S0 (fun x => S (src x))).
 Definition ex_sccs (dm : list (modid * list modid)) : list (list modid) := [map fst dm].
-Definition ex_reach (dm : list (modid * list modid)) (m d : modid) : bool := mem d (map fst dm).
+Definition ex_reach (dm : list (modid * list modid)) (m d : modid) : bool := false.   (* no indirect deps in the instance *)
+Definition ex_thash (dm : list (modid * list modid)) (m : modid) : nat := 0.
 Definition ex_sdo (l : list modid) (o : opts) : nat := length l.
 Definition ex_ign (m : modid) (s : stamp) (o : opts) : bool := Nat.eqb m 7.     (* module 7 is followed silently *)
 Definition ex_blocker (m : modid) (c : content) : bool := Nat.eqb c 99.          (* content 99 has a syntax error *)
@@ -129,14 +131,16 @@ Proof.
   - intros; reflexivity.
 Qed.
 
-Example graph_contract_satisfiable : GraphContract ex_sccs ex_reach.
+Example graph_contract_satisfiable : forall pr, GraphContract (ex_analyze pr) ex_sccs ex_reach ex_thash.
 Proof.
-  constructor.
+  intros pr. constructor.
   - intros dm [ND CL]. unfold ex_sccs. split; [|split].
     + simpl. rewrite app_nil_r. auto.
     + simpl. intros; rewrite app_nil_r. tauto.
     + intros L1 S0 L2 m ds d H Hm Hl Hd. apply ex_one in H as [-> ->]. simpl. eapply CL; eauto. eapply lookup_In; eauto.
-  - intros dm L1 S0 L2 m d H Hm Hr. apply ex_one in H as [-> ->]. simpl. apply mem_In; auto.
+  - intros dm L1 S0 L2 m d H Hm Hr. discriminate.
+  - reflexivity.
+  - simpl; tauto.
 Qed.
 
 (* in this instance every program (cyclic ones too) has a unique solution *)
@@ -151,10 +155,10 @@ Qed.
 (* the positive theorem instantiated (no probes): closed, no hypotheses left *)
 Example warm_eq_cold_instance :
   warm_equals_cold_for_all_histories ex_content_of ex_imports ex_noprobes (ex_analyze ex_noprobes) ex_sccs ex_reach ex_sdo
-                                     ex_ign ex_blocker.
+                                     ex_thash ex_ign ex_blocker.
 Proof.
-  exact (warm_eq_cold_all_histories_noprobes _ _ _ _ _ _ _ _ _ _ (analysis_contract_satisfiable ex_noprobes)
-           graph_contract_satisfiable (fun _ _ _ => eq_refl) (unique_satisfiable ex_noprobes)).
+  exact (warm_eq_cold_all_histories_noprobes _ _ _ _ _ _ _ _ _ _ _ (analysis_contract_satisfiable ex_noprobes)
+           (graph_contract_satisfiable ex_noprobes) (fun _ _ _ => eq_refl) (unique_satisfiable ex_noprobes)).
 Qed.
 
 Definition ex_o := {| o_snap := 1; o_version := 1; o_plugin := 0 |}.
@@ -170,13 +174,13 @@ Definition ex_sccs2 (dm : list (modid * list modid)) : list (list modid) := map 
 Definition ex_reach2 (dm : list (modid * list modid)) (m d : modid) : bool := false.
 
 Theorem warm_equals_cold_refuted :
-  exists content_of imports probes check analyze sccs_of reach sdo_of ign_of blocker,
+  exists content_of imports probes check analyze sccs_of reach sdo_of thash ign_of blocker,
     AnalysisContract imports probes check analyze /\
     (forall fs o, Proofs.FSOK fs -> Unique content_of check ign_of fs o) /\
-    ~ warm_equals_cold_for_all_histories content_of imports probes analyze sccs_of reach sdo_of ign_of blocker.
+    ~ warm_equals_cold_for_all_histories content_of imports probes analyze sccs_of reach sdo_of thash ign_of blocker.
 Proof.
   exists ex_content_of, ex_imports, ex_probes, (ex_check ex_probes), (ex_analyze ex_probes), ex_sccs2, ex_reach2, ex_sdo,
-         ex_ign, ex_blocker.
+         ex_thash, ex_ign, ex_blocker.
   split; [apply analysis_contract_satisfiable|].
   split; [apply unique_satisfiable|].
   intro H. specialize (H [([(1, 6)], ex_o)] [(1, 6); (3, 4)] ex_o 2 1).
@@ -203,7 +207,7 @@ Qed.
 (* a concrete history: editing module 2 changes the diagnostics of the unchanged module 5; then a syntax error in
    module 2 aborts the run (None) and leaves the cache usable; then the error is repaired *)
 Example ex_history_outputs :
-  let W := warm ex_content_of ex_imports ex_noprobes (ex_analyze ex_noprobes) ex_sccs ex_reach ex_sdo ex_ign ex_blocker in
+  let W := warm ex_content_of ex_imports ex_noprobes (ex_analyze ex_noprobes) ex_sccs ex_reach ex_sdo ex_thash ex_ign ex_blocker in
   let c1 := snd (W empty_store ex_fs1 ex_o 1) in
   let c2 := snd (W c1 ex_fs2 ex_o 2) in
   let c3 := snd (W c2 ex_fs3 ex_o 3) in
